@@ -31,28 +31,30 @@ META = dict(
           "not applied (the library cannot build an empty grid). "
           "non-trivial = distinct (data, history) containing a window that "
           "is a proper subset in time and in space."),
-    floors={"quick": {"histories": 600, "states_observed": 2000,
-                      "windowed_states": 1000, "restored_states": 200,
-                      "proper_windows": 400, "bound_on_sample": 500,
-                      "time_equal_convention": 60,
-                      "lat_equal_only_convention": 40,
-                      "lon_equal_only_convention": 40,
-                      "cycle_not_dividing": 300, "cycle_dividing": 100,
-                      "anomaly_algebra_checked": 600,
-                      "anomalies_flag_windowed": 60,
-                      "selected_months_checked": 60,
-                      "restore_bytes_checked": 200},
-            "thorough": {"histories": 6000, "states_observed": 30000,
-                         "windowed_states": 15000, "restored_states": 3000,
-                         "proper_windows": 5000, "bound_on_sample": 6000,
-                         "time_equal_convention": 600,
-                         "lat_equal_only_convention": 400,
-                         "lon_equal_only_convention": 400,
-                         "cycle_not_dividing": 3000, "cycle_dividing": 1000,
-                         "anomaly_algebra_checked": 8000,
-                         "anomalies_flag_windowed": 600,
-                         "selected_months_checked": 600,
-                         "restore_bytes_checked": 3000}},
+    floors={"quick": {"histories": 1500, "states_observed": 4000,
+                      "windowed_states": 2500, "restored_states": 600,
+                      "proper_windows": 900, "bound_on_sample": 4000,
+                      "echo_windows": 300, "ctor_window": 200,
+                      "time_equal_convention": 300,
+                      "lat_equal_only_convention": 300,
+                      "lon_equal_only_convention": 250,
+                      "cycle_not_dividing": 1000, "cycle_dividing": 450,
+                      "anomaly_algebra_checked": 1500,
+                      "anomalies_flag_windowed": 600,
+                      "selected_months_checked": 600,
+                      "restore_bytes_checked": 500},
+            "thorough": {"histories": 12000, "states_observed": 50000,
+                         "windowed_states": 35000, "restored_states": 9000,
+                         "proper_windows": 12000, "bound_on_sample": 55000,
+                         "echo_windows": 4000, "ctor_window": 1800,
+                         "time_equal_convention": 4000,
+                         "lat_equal_only_convention": 4500,
+                         "lon_equal_only_convention": 3500,
+                         "cycle_not_dividing": 13000, "cycle_dividing": 5000,
+                         "anomaly_algebra_checked": 18000,
+                         "anomalies_flag_windowed": 9000,
+                         "selected_months_checked": 7000,
+                         "restore_bytes_checked": 7000}},
     assumptions=[
         "axes and window bounds are multiples of 1/8 below 2^17, hence exact "
         "in float32: the library's float32 comparison equals the model's",
@@ -65,6 +67,10 @@ META = dict(
         "sample (window shorter than the cycle) are only shape-checked",
         "windows that select nothing are outside the property (skipped)"],
     technique="model-based test: boolean-mask model of the window history",
+    level_text=("after every operation of every generated history all "
+                "public views agreed with the mask model and the anomaly "
+                "algebra held; no claim beyond the sampled histories"),
+    level_note="trusted: numpy boolean indexing and float64 sums",
 )
 
 KEYS = ("time_min", "time_max", "lat_min", "lat_max", "lon_min", "lon_max")
@@ -581,6 +587,6 @@ def run(ctx):
         if not ctx.want(cid):
             continue
         r = ctx.rng("hist", k)
-        climate = (k % 4) != 0
+        climate = bool(r.random() < 0.75)
         with ctx.guard(60):
             run_history(ctx, Data, ClimateData, GeoGrid, cid, r, climate)
